@@ -1031,6 +1031,24 @@ func (c *CEnv) callFn(e *Expr) cv {
 			c.fail("maphas needs a map, got %T", m.V)
 		}
 		return cv{V: T{S: fmt.Sprintf("(select (has_%s %s) %s)", mt.So, mt.S, k.S), So: SBool}}
+	case "visited":
+		// visited(m, k): key k has already been produced by the (latest) range statement over map m
+		m := c.eval(e.Args[0])
+		k := c.term(e.Args[1])
+		mv, ok := m.V.(*MapV)
+		if !ok {
+			c.fail("visited needs a map variable, got %T", m.V)
+		}
+		vo, has := c.x.e.mapVisited[mv.Obj]
+		if !has {
+			c.fail("visited: no range statement over this map has started")
+		}
+		st := c.curState()
+		if _, live := st.Heap[vo]; !live {
+			st = c.st
+		}
+		vis := st.Heap[vo].(T)
+		return cv{V: T{S: fmt.Sprintf("(select %s %s)", vis.S, k.S), So: SBool}}
 	case "mapget":
 		// mapget(m, k): Go's m[k] on a map-sorted term (zero value of an integer element for absent keys)
 		m := c.eval(e.Args[0])
